@@ -346,8 +346,16 @@ impl<T: MessageType> MessageEncoder<T> {
         conn_type: ConnectionType,
         config: &ServiceConfig,
     ) -> io::Result<()> {
+        // 100, 102 and 204 responses never carry a body; `encode_headers` omits their framing
+        // headers, so body bytes written after such a head would corrupt the stream
+        // (101 is different: the "body" of an upgrade response is the upgraded protocol)
+        let no_body_status = matches!(
+            message.status(),
+            Some(StatusCode::CONTINUE | StatusCode::PROCESSING | StatusCode::NO_CONTENT)
+        );
+
         // transfer encoding
-        if !head {
+        if !head && !no_body_status {
             self.te = match length {
                 BodySize::Sized(0) => TransferEncoding::empty(),
                 BodySize::Sized(len) => TransferEncoding::length(len),
